@@ -1,6 +1,338 @@
+(* Context/Proofs.v -- the model's queries refine the history-based specification. *)
 From Coq Require Import List Arith Bool Lia.
 Import ListNotations.
-From Heph Require Import Context.Model Context.Spec.
+From Heph Require Import Context.Model Context.Spec Context.ProofsODict.
 
 Lemma run_nil : run [] = init.
 Proof. reflexivity. Qed.
+
+(* abbreviations for the instantiated dictionary lemmas *)
+Definition nget_set := @od_get_set nat val Nat.eqb nat_eqb_spec.
+Definition nget_del := @od_get_del nat val Nat.eqb nat_eqb_spec.
+Definition nkeys_set := @keys_set nat val Nat.eqb nat_eqb_spec.
+Definition nkeys_del := @keys_del nat val Nat.eqb nat_eqb_spec.
+
+Lemma kind_eqb_spec : forall a b, kind_eqb a b = true <-> a = b.
+Proof. intros [] []; simpl; split; intros H; try reflexivity; try discriminate. Qed.
+
+(* ------------------------------------------------------------------ *)
+(* history snoc lemmas                                                 *)
+(* ------------------------------------------------------------------ *)
+
+Lemma run_snoc : forall h o, run (h ++ [o]) = step (run h) o.
+Proof. intros h o. unfold run. rewrite fold_left_app. reflexivity. Qed.
+
+Lemma run_app : forall h1 h2, run (h1 ++ h2) = fold_left step h2 (run h1).
+Proof. intros h1 h2. unfold run. apply fold_left_app. Qed.
+
+Lemma live_snoc : forall h o k n nm,
+  live (h ++ [o]) k n nm = match effect o k n nm with Some r => r | None => live h k n nm end.
+Proof. intros h o k n nm. unfold live. rewrite fold_left_app. reflexivity. Qed.
+
+Lemma order_snoc : forall h o k n, order (h ++ [o]) k n = order_step k n (order h k n) o.
+Proof. intros h o k n. unfold order. rewrite fold_left_app. reflexivity. Qed.
+
+(* ------------------------------------------------------------------ *)
+(* a uniform view of operations                                        *)
+(* ------------------------------------------------------------------ *)
+
+Inductive opv :=
+| VAdd (p : kind) (n : ns) (nm : name) (v : val)
+| VRem (p : kind) (n : ns) (nm : name)
+| VNs (n : ns).
+
+Definition view (o : op) : opv :=
+  match o with
+  | AddType n nm v => VAdd Types n nm v
+  | AddFunc n nm v => VAdd Funcs n nm v
+  | AddLambda n nm v => VAdd Lambdas n nm v
+  | AddVar n nm v => VAdd Vars n nm v
+  | AddClass n nm v => VAdd Classes n nm v
+  | RemType n nm => VRem Types n nm
+  | RemFunc n nm => VRem Funcs n nm
+  | RemLambda n nm => VRem Lambdas n nm
+  | RemVar n nm => VRem Vars n nm
+  | RemClass n nm => VRem Classes n nm
+  | RemNs n => VNs n
+  end.
+
+Lemma effect_view : forall o k n nm,
+  effect o k n nm =
+  match view o with
+  | VAdd p n' nm' v => if writes p k && ns_eqb n' n && Nat.eqb nm' nm then Some (Some v) else None
+  | VRem p n' nm' => if writes p k && ns_eqb n' n && Nat.eqb nm' nm then Some None else None
+  | VNs n' => if ns_eqb n' n then Some None else None
+  end.
+Proof. intros [] k n0 nm0; reflexivity. Qed.
+
+Lemma order_step_view : forall o k n acc,
+  order_step k n acc o =
+  match view o with
+  | VAdd p n' nm v =>
+      if writes p k && ns_eqb n' n
+      then (if existsb (Nat.eqb nm) acc then acc else acc ++ [nm]) else acc
+  | VRem p n' nm =>
+      if writes p k && ns_eqb n' n then filter (fun x => negb (Nat.eqb x nm)) acc else acc
+  | VNs n' => if ns_eqb n' n then [] else acc
+  end.
+Proof.
+  intros [] k n0 acc; simpl; try reflexivity;
+    unfold effect; rewrite Nat.eqb_refl, andb_true_r;
+    match goal with |- context [writes ?p k && ns_eqb ?a ?b] =>
+      destruct (writes p k && ns_eqb a b) end; reflexivity.
+Qed.
+
+(* ------------------------------------------------------------------ *)
+(* cur after the primitive mutators                                    *)
+(* ------------------------------------------------------------------ *)
+
+Lemma get_set_ent : forall k k' d e,
+  get_ent k' (set_ent k d e) = if kind_eqb k k' then d else get_ent k' e.
+Proof. intros [] [] d e; reflexivity. Qed.
+
+Lemma cur_add : forall s n k nm v n' k',
+  cur (add_entity s n k nm v) n' k' =
+  if ns_eqb n n' && kind_eqb k k' then od_set Nat.eqb (cur s n' k') nm v else cur s n' k'.
+Proof.
+  intros s n k nm v n' k'. unfold add_entity, cur, ents_of, ctx_get. simpl.
+  rewrite (od_get_set ns_eqb ns_eqb_spec).
+  destruct (ns_eqb n n') eqn:En; simpl.
+  - apply ns_eqb_spec in En. subst n'. rewrite get_set_ent.
+    destruct (kind_eqb k k') eqn:Ek.
+    + apply kind_eqb_spec in Ek. subst k'.
+      destruct (od_get ns_eqb (ctx s) n); [reflexivity|]. destruct k; reflexivity.
+    + destruct (od_get ns_eqb (ctx s) n); [reflexivity|]. destruct k'; reflexivity.
+  - reflexivity.
+Qed.
+
+Lemma cur_rem : forall s n k nm n' k',
+  cur (remove_entity s n k nm) n' k' =
+  if ns_eqb n n' && kind_eqb k k' then od_del Nat.eqb (cur s n' k') nm else cur s n' k'.
+Proof.
+  intros s n k nm n' k'. unfold remove_entity, ctx_get.
+  destruct (od_get ns_eqb (ctx s) n) as [e|] eqn:Ee.
+  - destruct (od_get Nat.eqb (get_ent k e) nm) as [decl|] eqn:Ed.
+    + unfold cur, ents_of, ctx_get. simpl.
+      rewrite (od_get_set ns_eqb ns_eqb_spec).
+      destruct (ns_eqb n n') eqn:En; simpl; [|reflexivity].
+      apply ns_eqb_spec in En. subst n'. rewrite get_set_ent. rewrite Ee.
+      destruct (kind_eqb k k') eqn:Ek; [|reflexivity].
+      apply kind_eqb_spec in Ek. subst k'. reflexivity.
+    + destruct (ns_eqb n n') eqn:En; simpl; [|reflexivity].
+      apply ns_eqb_spec in En. subst n'.
+      destruct (kind_eqb k k') eqn:Ek; [|reflexivity].
+      apply kind_eqb_spec in Ek. subst k'.
+      unfold cur, ents_of, ctx_get. rewrite Ee.
+      symmetry. apply (od_del_absent Nat.eqb). exact Ed.
+  - destruct (ns_eqb n n') eqn:En; simpl; [|reflexivity].
+    apply ns_eqb_spec in En. subst n'.
+    destruct (kind_eqb k k'); [|reflexivity].
+    unfold cur, ents_of, ctx_get. rewrite Ee. reflexivity.
+Qed.
+
+Lemma cur_remns : forall s n n' k,
+  NoDup (map fst (ctx s)) ->
+  cur {| ctx := od_del ns_eqb (ctx s) n; rev := rev s |} n' k =
+  if ns_eqb n n' then [] else cur s n' k.
+Proof.
+  intros s n n' k Hnd. unfold cur, ents_of, ctx_get. simpl.
+  rewrite (od_get_del ns_eqb ns_eqb_spec) by exact Hnd.
+  destruct (ns_eqb n n'); reflexivity.
+Qed.
+
+(* the per-cell transformer of one operation *)
+Definition dstep (o : op) (k : kind) (n : ns) (d : edict) : edict :=
+  match view o with
+  | VAdd p n' nm v => if writes p k && ns_eqb n' n then od_set Nat.eqb d nm v else d
+  | VRem p n' nm => if writes p k && ns_eqb n' n then od_del Nat.eqb d nm else d
+  | VNs n' => if ns_eqb n' n then [] else d
+  end.
+
+Lemma cur_step : forall s o n k,
+  NoDup (map fst (ctx s)) ->
+  cur (step s o) n k = dstep o k n (cur s n k).
+Proof.
+  intros s o n k Hnd. unfold dstep.
+  destruct o as [n0 nm v|n0 nm v|n0 nm v|n0 nm v|n0 nm v|n0 nm|n0 nm|n0 nm|n0 nm|n0 nm|n0]; simpl;
+    try (apply cur_remns; exact Hnd);
+    repeat rewrite cur_add; repeat rewrite cur_rem;
+    unfold writes; destruct (ns_eqb n0 n); destruct k; reflexivity.
+Qed.
+
+(* ------------------------------------------------------------------ *)
+(* well-formedness: no duplicate keys anywhere                         *)
+(* ------------------------------------------------------------------ *)
+
+Definition wf (s : state) : Prop :=
+  NoDup (map fst (ctx s)) /\ forall n k, NoDup (map fst (cur s n k)).
+
+Lemma wf_init : wf init.
+Proof. split; [constructor | intros n k; constructor]. Qed.
+
+Lemma ctx_nodup_add : forall s n k nm v,
+  NoDup (map fst (ctx s)) -> NoDup (map fst (ctx (add_entity s n k nm v))).
+Proof.
+  intros s n k nm v Hnd. unfold add_entity. simpl.
+  apply (nodup_set ns_eqb ns_eqb_spec). exact Hnd.
+Qed.
+
+Lemma ctx_nodup_rem : forall s n k nm,
+  NoDup (map fst (ctx s)) -> NoDup (map fst (ctx (remove_entity s n k nm))).
+Proof.
+  intros s n k nm Hnd. unfold remove_entity.
+  destruct (ctx_get s n) as [e|]; [|exact Hnd].
+  destruct (od_get Nat.eqb (get_ent k e) nm); [|exact Hnd].
+  simpl. apply (nodup_set ns_eqb ns_eqb_spec). exact Hnd.
+Qed.
+
+Lemma ctx_nodup_step : forall s o,
+  NoDup (map fst (ctx s)) -> NoDup (map fst (ctx (step s o))).
+Proof.
+  intros s o Hnd. destruct o; unfold step;
+    repeat first [apply ctx_nodup_add | apply ctx_nodup_rem]; try exact Hnd.
+  simpl. apply (nodup_del ns_eqb ns_eqb_spec). exact Hnd.
+Qed.
+
+Lemma dstep_nodup : forall o k n d, NoDup (map fst d) -> NoDup (map fst (dstep o k n d)).
+Proof.
+  intros o k n d Hnd. unfold dstep. destruct (view o) as [p n' nm v|p n' nm|n'].
+  - destruct (writes p k && ns_eqb n' n); [|exact Hnd].
+    apply (nodup_set Nat.eqb nat_eqb_spec). exact Hnd.
+  - destruct (writes p k && ns_eqb n' n); [|exact Hnd].
+    apply (nodup_del Nat.eqb nat_eqb_spec). exact Hnd.
+  - destruct (ns_eqb n' n); [constructor | exact Hnd].
+Qed.
+
+Lemma wf_step : forall s o, wf s -> wf (step s o).
+Proof.
+  intros s o [Hc Hd]. split.
+  - apply ctx_nodup_step. exact Hc.
+  - intros n k. rewrite cur_step by exact Hc. apply dstep_nodup. apply Hd.
+Qed.
+
+Lemma wf_fold : forall h s, wf s -> wf (fold_left step h s).
+Proof.
+  induction h as [|o h IH]; intros s Hwf; simpl.
+  - exact Hwf.
+  - apply IH. apply wf_step. exact Hwf.
+Qed.
+
+Lemma wf_run : forall h, wf (run h).
+Proof. intros h. unfold run. apply wf_fold. apply wf_init. Qed.
+
+(* ------------------------------------------------------------------ *)
+(* single-step characterisations                                       *)
+(* ------------------------------------------------------------------ *)
+
+Lemma get_step : forall s o n k nm,
+  wf s ->
+  od_get Nat.eqb (cur (step s o) n k) nm =
+  match effect o k n nm with Some r => r | None => od_get Nat.eqb (cur s n k) nm end.
+Proof.
+  intros s o n k nm [Hc Hd]. rewrite cur_step by exact Hc.
+  rewrite effect_view. unfold dstep.
+  destruct (view o) as [p n' nm' v|p n' nm'|n'].
+  - destruct (writes p k && ns_eqb n' n); simpl; [|reflexivity].
+    rewrite nget_set. destruct (Nat.eqb nm' nm); reflexivity.
+  - destruct (writes p k && ns_eqb n' n); simpl; [|reflexivity].
+    rewrite nget_del by apply Hd. destruct (Nat.eqb nm' nm); reflexivity.
+  - destruct (ns_eqb n' n); reflexivity.
+Qed.
+
+Lemma keys_step : forall s o n k,
+  wf s ->
+  map fst (cur (step s o) n k) = order_step k n (map fst (cur s n k)) o.
+Proof.
+  intros s o n k [Hc Hd]. rewrite cur_step by exact Hc.
+  rewrite order_step_view. unfold dstep.
+  destruct (view o) as [p n' nm' v|p n' nm'|n'].
+  - destruct (writes p k && ns_eqb n' n); [|reflexivity]. apply nkeys_set.
+  - destruct (writes p k && ns_eqb n' n); [|reflexivity]. apply nkeys_del. apply Hd.
+  - destruct (ns_eqb n' n); reflexivity.
+Qed.
+
+(* ------------------------------------------------------------------ *)
+(* T1, T2, T2b, T3                                                     *)
+(* ------------------------------------------------------------------ *)
+
+Lemma current_lookup_pf : forall h k n nm,
+  od_get Nat.eqb (cur (run h) n k) nm = live h k n nm.
+Proof.
+  induction h as [|o h IH] using rev_ind; intros k n nm.
+  - reflexivity.
+  - rewrite run_snoc, live_snoc. rewrite get_step by apply wf_run.
+    rewrite IH. reflexivity.
+Qed.
+
+Lemma current_order_pf : forall h k n, map fst (cur (run h) n k) = order h k n.
+Proof.
+  induction h as [|o h IH] using rev_ind; intros k n.
+  - reflexivity.
+  - rewrite run_snoc, order_snoc. rewrite keys_step by apply wf_run.
+    rewrite IH. reflexivity.
+Qed.
+
+Lemma order_nodup_pf : forall h k n, NoDup (order h k n).
+Proof.
+  intros h k n. rewrite <- current_order_pf. apply (wf_run h).
+Qed.
+
+Lemma current_query_pf : forall h k n, n <> [] ->
+  exists d, get_declarations (run h) n k true false true = QOk d /\
+            map fst d = order h k n /\
+            forall nm, od_get Nat.eqb d nm = live h k n nm.
+Proof.
+  intros h k n Hn. exists (cur (run h) n k). split; [|split].
+  - destruct n as [|x n]; [contradiction|].
+    unfold get_declarations. rewrite orb_true_r. reflexivity.
+  - apply current_order_pf.
+  - intros nm. apply current_lookup_pf.
+Qed.
+
+(* ------------------------------------------------------------------ *)
+(* T4b                                                                 *)
+(* ------------------------------------------------------------------ *)
+
+Lemma hide_none_pf : forall s n k oc gl d,
+  get_declarations s n k oc gl true = QOk d ->
+  get_declarations s n k oc gl false = QOk (drop_none d).
+Proof.
+  intros s n k oc gl d. unfold get_declarations.
+  destruct n as [|x n]; [discriminate|].
+  destruct (if gl then declarations_glob s (x :: n) k
+            else if (Nat.eqb (length (x :: n)) 1) || oc then Some (cur s (x :: n) k)
+                 else Some (declarations_path s (x :: n) k)) as [d0|].
+  - intros Heq. inversion Heq. reflexivity.
+  - discriminate.
+Qed.
+
+(* ------------------------------------------------------------------ *)
+(* T8                                                                  *)
+(* ------------------------------------------------------------------ *)
+
+Lemma remove_local_pf : forall h p n nm o,
+  (o = match p with
+       | Types => RemType n nm | Funcs => RemFunc n nm | Lambdas => RemLambda n nm
+       | Vars => RemVar n nm | Classes => RemClass n nm | Decls => RemVar n nm end) ->
+  (forall k, writes (match p with Decls => Vars | x => x end) k = true ->
+             live (h ++ [o]) k n nm = None) /\
+  (forall k n' nm',
+      (writes (match p with Decls => Vars | x => x end) k = false \/ n' <> n \/ nm' <> nm) ->
+      live (h ++ [o]) k n' nm' = live h k n' nm').
+Proof.
+  intros h p n nm o Ho.
+  assert (Hv : view o = VRem (match p with Decls => Vars | x => x end) n nm).
+  { subst o. destruct p; reflexivity. }
+  split.
+  - intros k Hw. rewrite live_snoc, effect_view, Hv, Hw, ns_eqb_refl, Nat.eqb_refl.
+    reflexivity.
+  - intros k n' nm' Hor. rewrite live_snoc, effect_view, Hv.
+    destruct Hor as [Hw|[Hn|Hnm]].
+    + rewrite Hw. reflexivity.
+    + assert (E : ns_eqb n n' = false).
+      { apply (keqb_neq ns_eqb ns_eqb_spec). congruence. }
+      rewrite E, andb_false_r. reflexivity.
+    + assert (E : Nat.eqb nm nm' = false).
+      { apply Nat.eqb_neq. congruence. }
+      rewrite E, andb_false_r. reflexivity.
+Qed.
